@@ -17,9 +17,12 @@ limitations under the License.
 package certwatcher
 
 import (
+	"bytes"
 	"context"
 	"crypto/tls"
+	"errors"
 	"log"
+	"os"
 	"sync"
 
 	"github.com/fsnotify/fsnotify"
@@ -132,7 +135,12 @@ func (cw *CertWatcher) Watch() {
 // and updates the current certificate on the watcher.  If a callback is set, it
 // is invoked with the new certificate.
 func (cw *CertWatcher) ReadCertificate() error {
-	cert, err := tls.LoadX509KeyPair(cw.certPath, cw.keyPath)
+	certPEM, keyPEM, err := cw.readPair()
+	if err != nil {
+		return err
+	}
+
+	cert, err := tls.X509KeyPair(certPEM, keyPEM)
 	if err != nil {
 		return err
 	}
@@ -144,6 +152,34 @@ func (cw *CertWatcher) ReadCertificate() error {
 	vlogf("updated current TLS certificate")
 
 	return nil
+}
+
+// readPair reads the certificate and the key file. The two reads are not
+// atomic: when both paths are switched to a new directory at once (symlinked
+// directory swap) in between, the certificate would come from the old
+// directory and the key from the new one, a pair that never was on disk. The
+// certificate is therefore read again after the key, and the whole read is
+// retried if it has changed meanwhile.
+func (cw *CertWatcher) readPair() (certPEM, keyPEM []byte, err error) {
+	for attempt := 0; ; attempt++ {
+		if certPEM, err = os.ReadFile(cw.certPath); err != nil {
+			return nil, nil, err
+		}
+		if keyPEM, err = os.ReadFile(cw.keyPath); err != nil {
+			return nil, nil, err
+		}
+		again, err := os.ReadFile(cw.certPath)
+		if err != nil {
+			return nil, nil, err
+		}
+		if bytes.Equal(certPEM, again) {
+			return certPEM, keyPEM, nil
+		}
+		if attempt == 4 {
+			// still being rewritten: the event of the last change triggers another read
+			return nil, nil, errors.New("certificate file kept changing while the pair was read")
+		}
+	}
 }
 
 func (cw *CertWatcher) handleEvent(event fsnotify.Event) {
